@@ -60,6 +60,8 @@ type Op struct {
 	// all-zero id (the store's own name for "no transaction"), 2 no transaction named at all
 	IDVar int
 	Ref   int // CreateEnd: the step of its CreateBegin (the content carries that step's id)
+	// EOFWithData: SetReader's source returns its last bytes together with io.EOF
+	EOFWithData bool
 }
 
 var idVarNames = [...]string{"never-issued", "all-zero-id", "no-id"}
@@ -116,6 +118,9 @@ func (o Op) String() string {
 		return fmt.Sprintf("%sCreate(%s,%v)", a, kq(o.Key), o.Split)
 	case Set, SetReader:
 		if o.Kind == SetReader && len(o.Split) > 0 {
+			if o.EOFWithData {
+				return fmt.Sprintf("%sSetReader(%s,reads=%v,last read returns io.EOF with its bytes)", a, kq(o.Key), o.Split)
+			}
 			return fmt.Sprintf("%sSetReader(%s,reads=%v)", a, kq(o.Key), o.Split)
 		}
 		if o.Len != 0 && o.Len != DefaultLen {
@@ -229,9 +234,10 @@ func (r *Runner) DrainHeld(op Op) *Mismatch {
 
 // chunkReader hands the content out in reads of prescribed sizes (as a pipe or a multi-reader would).
 type chunkReader struct {
-	data  []byte
-	sizes []int
-	i     int
+	data        []byte
+	sizes       []int
+	i           int
+	eofWithData bool
 }
 
 func (c *chunkReader) Read(p []byte) (int, error) {
@@ -251,6 +257,9 @@ func (c *chunkReader) Read(p []byte) (int, error) {
 	}
 	copy(p, c.data[:n])
 	c.data = c.data[n:]
+	if c.eofWithData && len(c.data) == 0 {
+		return n, io.EOF // the last bytes and the end of the stream in one call (io.Reader allows it)
+	}
 	return n, nil
 }
 
@@ -356,7 +365,7 @@ func (r *Runner) apply(op Op) *Mismatch {
 			err = st.Set(ctx, op.Key, content)
 		case SetReader:
 			if len(op.Split) > 0 {
-				err = st.SetReader(ctx, op.Key, &chunkReader{data: content, sizes: op.Split})
+				err = st.SetReader(ctx, op.Key, &chunkReader{data: content, sizes: op.Split, eofWithData: op.EOFWithData})
 			} else {
 				err = st.SetReader(ctx, op.Key, plainReader{bytes.NewReader(content)})
 			}
